@@ -105,14 +105,20 @@ pub struct Out {
     pub only: Option<u64>,
     pub count: u64,
     pub shard: (u64, u64),
+    pub ops: Option<Vec<String>>,
 }
 
 impl Out {
     pub fn new(announce: bool, only: Option<u64>) -> Self {
-        Out { w: BufWriter::with_capacity(1 << 20, std::io::stdout()), announce, only, count: 0, shard: (0, 1) }
+        Out { w: BufWriter::with_capacity(1 << 20, std::io::stdout()), announce, only, count: 0, shard: (0, 1), ops: None }
     }
     /// Run one case under catch_unwind and write its protocol line.
     pub fn case<F: FnOnce() -> String>(&mut self, op: &str, args: &[&[u8]], f: F) {
+        if let Some(ops) = &self.ops {
+            if !ops.iter().any(|o| o == op) {
+                return;
+            }
+        }
         let idx = CASE_INDEX.fetch_add(1, Ordering::Relaxed);
         if idx % self.shard.1 != self.shard.0 {
             return;
